@@ -1,6 +1,7 @@
 import TsRsVerif.Model.Path
 import TsRsVerif.Lemmas.TextLemmas
 import TsRsVerif.Lemmas.PathLemmas
+import TsRsVerif.Lemmas.AbsLemmas
 /-!
 # C08 — import specifiers resolve to the dependency's file for every path pair
 
@@ -265,5 +266,70 @@ theorem C08_cex_stem_ts :
 theorem C08_cex_stem_js :
     importPath false "/w".toList "/w/x.ts".toList "/w/a.js.ts".toList = some (.ok "./a.js".toList) ∧
     specGood false ["w".toList] ["w".toList, "a.js.ts".toList] "./a.js".toList = false := by decide
+
+end TsRs
+
+namespace TsRs
+open Text Path
+
+/-- **C08 for every spelling of the two paths.** `C08_resolves` assumes the shape of the two normalised
+absolute paths; this theorem DERIVES it. For every absolute current directory, every importing file `frm`
+with a parent directory and every imported file `imp` — written relative or absolute, with `.`, `..`,
+repeated or trailing separators, at any depth — on which `path::absolute` succeeds: the two results
+are `/` followed by proper component names only (no `.`, no `..`, no empty piece, no separator inside a
+name: `fd` for the importing directory, `A` for the imported file), and whenever the imported file is
+`…/tf.ts` with a stem that is not itself `….ts` (nor `….js` without ES-module imports), the names carry
+no backslash and the file is not the importing directory or one of its ancestors, `import_path`
+returns a specifier satisfying all of C08's clauses for exactly those `fd` and `A`. Nothing about the
+normal form is assumed any more; what is left are conditions on the NAMES, each shown necessary by a
+counter-example below. -/
+theorem C08_resolves_any_spelling (esm : Bool) (cwd frm imp dir p b : Str)
+    (hcwd : isAbsolute cwd = true)
+    (hdir : parent frm = some dir)
+    (hp : absolute cwd imp = .ok p) (hb : absolute cwd dir = .ok b) :
+    ∃ fd A, components p = Comp.root :: N A ∧ components b = Comp.root :: N fd ∧
+      (∀ n ∈ fd ++ A, CompName n) ∧
+      ∀ td tf, A = td ++ [tf ++ dotTs] → (∀ n ∈ fd ++ A, '\\' ∉ n) → tf ≠ [] →
+        endsWith dotTs tf = false → (esm = false → endsWith dotJs tf = false) → ¬ A <+: fd →
+        ∃ spec, importPath esm cwd frm imp = some (.ok spec) ∧ specGood esm fd A spec = true := by
+  obtain ⟨A, hpA, hA⟩ := absolute_shape cwd imp p hcwd hp
+  obtain ⟨fd, hbF, hF⟩ := absolute_shape cwd dir b hcwd hb
+  have hpc : components p = Comp.root :: N A := by rw [hpA]; exact components_ofComps A hA
+  have hbc : components b = Comp.root :: N fd := by rw [hbF]; exact components_ofComps fd hF
+  have hall : ∀ n ∈ fd ++ A, CompName n := by
+    intro n hn
+    rcases List.mem_append.mp hn with h | h
+    · exact hF n h
+    · exact hA n h
+  refine ⟨fd, A, hpc, hbc, hall, ?_⟩
+  intro td tf hAeq hbs htf hts hjs hnp
+  subst hAeq
+  refine C08_resolves esm cwd frm imp dir p b fd td tf hdir hp hb hpc hbc ?_ htf hts hjs hnp
+  intro n hn
+  have hn' : n ∈ fd ++ (td ++ [tf ++ dotTs]) := by simpa [List.append_assoc] using hn
+  have hc := hall n hn'
+  exact ⟨hc.1, hc.2.1, hbs n hn', hc.2.2.1, hc.2.2.2⟩
+
+/-- non-vacuity: the hypotheses hold for an instance with dot segments and doubled separators, and the
+conclusion's specifier is the expected one -/
+example : isAbsolute "/w".toList = true ∧
+    parent "./bindings/x/../a/A.ts".toList = some "./bindings/x/../a".toList ∧
+    absolute "/w".toList "bindings//b/./B.ts".toList = .ok "/w/bindings/b/B.ts".toList ∧
+    absolute "/w".toList "./bindings/x/../a".toList = .ok "/w/bindings/a".toList ∧
+    importPath true "/w".toList "./bindings/x/../a/A.ts".toList "bindings//b/./B.ts".toList
+      = some (.ok "../b/B.js".toList) ∧
+    specGood true ["w".toList, "bindings".toList, "a".toList]
+      (["w".toList, "bindings".toList, "b".toList] ++ ["B".toList ++ dotTs]) "../b/B.js".toList = true := by decide
+
+/-- the backslash condition is necessary: a directory named `a\b` reaches the specifier unchanged -/
+theorem C08_cex_backslash :
+    importPath false "/w".toList "/w/x.ts".toList "/w/a\\b/T.ts".toList = some (.ok "./a\\b/T".toList) ∧
+    specGood false ["w".toList] ["w".toList, "a\\b".toList, "T.ts".toList] "./a\\b/T".toList = false := by decide
+
+/-- the ancestor condition is necessary: importing a "file" that is the importing directory itself
+yields an empty relative path, which is not a relative specifier -/
+theorem C08_cex_ancestor :
+    importPath false "/w".toList "/w/d.ts/x.ts".toList "/w/d.ts".toList = some (.ok [])  ∧
+    specGood false ["w".toList, "d.ts".toList] ["w".toList, "d.ts".toList] [] = false := by decide
 
 end TsRs
